@@ -386,3 +386,14 @@ V("c12-split-noop-negated", "C12", BN, "            if not value or if_delete_su
 V("c12-collapse-bit-swapped", "C12", BN, "first_bit = BYTE_1 if new_right_child != BLANK_HASH else BYTE_0", "first_bit = BYTE_0 if new_right_child != BLANK_HASH else BYTE_1", rule="BRTAB")
 V("c12-get-args-swapped", "C12", BN, "return self._get(self.root_hash, encode_to_bin(key))", "return self._get(encode_to_bin(key), self.root_hash)", rule="ROUTE2")
 V("c01-set-args-crossed", "C01", HX, "            return self._set_kv_node(node, trie_key, value)", "            return self._set_kv_node(node, value, trie_key)", rule="ARGX")
+# --- harmless additions (diagnostics, declared invariants) ---------------------
+V("silent-logging-in-db-write", "C04", HX, "    def _set_db_value(self, key, value):\n        self.db[key] = value", "    def _set_db_value(self, key, value):\n        logging.getLogger('trie').debug('store %r', key)\n        self.db[key] = value",
+  expect="silent", props=["C01", "C02", "C04", "C05", "C06", "C07"], edits=[(HX, "import contextlib\n", "import contextlib\nimport logging\n"),
+  (HX, "    def _set_db_value(self, key, value):\n        self.db[key] = value", "    def _set_db_value(self, key, value):\n        logging.getLogger('trie').debug('store %r', key)\n        self.db[key] = value")])
+V("silent-module-logger", "C04", HX, "", "", expect="silent", props=["C04", "C06"], edits=[(HX, "import contextlib\n", "import contextlib\nimport logging\n"),
+  (HX, "class HexaryTrie:", "logger = logging.getLogger(__name__)\n\n\nclass HexaryTrie:"),
+  (HX, "        if self.is_pruning:\n            self._ref_count[key] += 1", "        if self.is_pruning:\n            logger.debug('count %r', key)\n            self._ref_count[key] += 1")])
+V("silent-assert-before-write", "C04", HX, "    def _set_db_value(self, key, value):\n        self.db[key] = value", "    def _set_db_value(self, key, value):\n        assert isinstance(key, bytes)\n        self.db[key] = value",
+  expect="silent", props=["C04", "C05", "C06"])
+V("silent-warnings-warn", "C14", SM, "        self._default = default\n", "        self._default = default\n        if default != BLANK_NODE:\n            warnings.warn('non-blank default')\n", expect="silent", props=["C14", "C15"],
+  edits=[(SM, "from typing import (", "import warnings\nfrom typing import ("), (SM, "        self._default = default\n", "        self._default = default\n        if default != BLANK_NODE:\n            warnings.warn('non-blank default')\n")])
